@@ -38,6 +38,8 @@ func seqSpecFor(id, tier string) *SeqSpec {
 		return specC10(tier, 2)
 	case "C14":
 		return specC14(tier)
+	case "C15#hello":
+		return specC15hello(tier)
 	case "C06":
 		return specC06(tier)
 	case "C07":
@@ -114,6 +116,13 @@ func main() {
 			rep := newReport(id, *tier, "model_checking")
 			rep.Assume = []string{"element names are chosen with the dictionary's own hash function so that single insertions / deletions double or halve the table mid-iteration", "at most m mutations per iteration (m in the evidence), tables of 16..128 buckets"}
 			runScanCheck(*tier, rep)
+			os.Exit(rep.finish())
+		}
+		if id == "C15" {
+			rep := newReport(id, *tier, "model_checking")
+			rep.Assume = []string{"the canonical down-conversion is: map / list of pairs -> flat array, set -> array, double / big number / verbatim -> string, boolean -> 0/1, null -> nil", "unordered collections are compared as multisets"}
+			runC15(*tier, rep)
+			runSeqCheck(specC15hello(*tier), *tier, rep)
 			os.Exit(rep.finish())
 		}
 		if sps := seqSpecsFor(id, *tier); sps != nil {
